@@ -610,7 +610,7 @@ def nextToken (c : Cur) : Res :=
           | some c2 => lexMultiLineComment c.pos c2
           | none => lexOperator c c1
       else if x = 124 then
-        match c1.eatSlice [124] with
+        match c1.eatSlice [124, 124] with
         | some c2 => lexTextBlock c c2
         | none => lexOperator c c1
       else if isOpStart x then lexOperator c c1
